@@ -317,6 +317,7 @@ func (ar *c40ActorRun) execFakePub(w *c40World, s c40Step) string {
 		}
 		ar.pubs = append(ar.pubs, p)
 		ar.curPub = p
+		_ = p.Path.SafeConf() // like a session: reads the path configuration it was attached under
 		return "ok"
 	case "write":
 		if ar.curPub == nil {
@@ -333,6 +334,19 @@ func (ar *c40ActorRun) execFakePub(w *c40World, s c40Step) string {
 		ar.curPub.Detach()
 		ar.curPub = nil
 		return "ok"
+	case "safeconf":
+		// what every protocol session does with the path it was given (hooks, recording, timeouts)
+		if ar.curPub == nil {
+			return "err:no publisher"
+		}
+		if ar.curPub.Path.SafeConf() == nil {
+			return "err:nil conf"
+		}
+		return "ok"
+	case "pmlist":
+		// what the API and the metrics exporter do, without HTTP in between
+		_, err := w.pm.Load().APIPathsList()
+		return c40ErrOutcome(err)
 	}
 	return "err:unknown op"
 }
@@ -345,6 +359,7 @@ func (ar *c40ActorRun) execFakeRdr(w *c40World, s c40Step) string {
 			return c40ErrOutcome(err)
 		}
 		ar.rdrs = append(ar.rdrs, &c40Rdr{r: r})
+		_ = r.Path.SafeConf()
 		return "ok"
 	case "detach":
 		for _, rd := range ar.rdrs {
@@ -355,6 +370,19 @@ func (ar *c40ActorRun) execFakeRdr(w *c40World, s c40Step) string {
 			}
 		}
 		return "err:no reader"
+	case "safeconf":
+		for i := len(ar.rdrs) - 1; i >= 0; i-- {
+			if !ar.rdrs[i].detached {
+				if ar.rdrs[i].r.Path.SafeConf() == nil {
+					return "err:nil conf"
+				}
+				return "ok"
+			}
+		}
+		return "err:no reader"
+	case "pmlist":
+		_, err := w.pm.Load().APIPathsList()
+		return c40ErrOutcome(err)
 	case "describe":
 		// on a regex path without stream this creates a dynamic path and fails; the path then closes itself
 		_, err := w.pm.Load().Describe(defs.PathDescribeReq{
